@@ -262,6 +262,7 @@ func c19ZipDir(src *choice.Src, res *core.Result) {
 		return
 	}
 	defer sb.close()
+	res.Scrub(sb.root)
 	zipFile := filepath.Join(sb.root, "m.zip")
 	os.WriteFile(zipFile, buf.Bytes(), 0o644)
 	out := filepath.Join(sb.root, "x", "out")
